@@ -91,7 +91,8 @@ func BuildMessage(plugin *Plugin, desc *generator.Descriptor, isRoot bool, path 
 		IsRoot:         isRoot,
 		InjectedFields: c.GetInjectedFields(),
 		OneOfNames:     c.GetOneOfNames(),
-		IsEmpty:        c.IsEmpty(),
+		// A message all of whose fields are excluded has nothing to convert either
+		IsEmpty: c.IsEmpty() || len(fields) == 0,
 	}
 
 	message.Comment = c.GetComment()
